@@ -3,7 +3,7 @@ harness build, driver invocation, evidence and verdict helpers."""
 import hashlib, json, os, random, re, shutil, subprocess, sys, tempfile, time
 
 VERIF = os.path.dirname(os.path.dirname(os.path.abspath(__file__)))
-REPO = "/repo"
+REPO = os.environ.get("VERIF_REPO", "/repo")   # VERIF_REPO: development aid (a scratch worktree with a seeded change); registered commands never set it
 SPEC = os.path.join(VERIF, "spec")
 BUILD = os.path.join(VERIF, "build")
 WORKROOT = os.path.join(VERIF, ".work")
@@ -219,6 +219,15 @@ def build_harness(target="dirkdrv"):
     os.makedirs(BUILD, exist_ok=True)
     hdir = os.path.join(VERIF, "harness")
     import fcntl
+    scratch = None
+    if REPO != "/repo":
+        # the harness module replaces the dirk module by /repo: build a private copy that points at the other tree
+        scratch = os.path.join(BUILD, "harness.%d" % os.getpid())
+        shutil.rmtree(scratch, ignore_errors=True)
+        shutil.copytree(hdir, scratch)
+        gm = open(os.path.join(scratch, "go.mod")).read().replace("=> /repo", "=> " + REPO)
+        open(os.path.join(scratch, "go.mod"), "w").write(gm)
+        hdir = scratch
     with open(os.path.join(BUILD, ".lock"), "w") as lk:
         fcntl.flock(lk, fcntl.LOCK_EX)      # several checks may run at the same time
         src = open(os.path.join(REPO, "go.sum")).read()
@@ -231,6 +240,8 @@ def build_harness(target="dirkdrv"):
         out = os.path.join(BUILD, "%s.%d" % (target, os.getpid()))
         p = subprocess.run(["go1.26", "build", "-tags", "verif", "-o", out, "./cmd/" + target], cwd=hdir, env=GOENV,
                            stdout=subprocess.PIPE, stderr=subprocess.STDOUT, text=True)
+        if scratch:
+            shutil.rmtree(scratch, ignore_errors=True)
         if p.returncode != 0:
             raise Inconclusive("harness build failed (does /repo still compile?):\n" + p.stdout[-3000:])
     import atexit
